@@ -203,10 +203,10 @@ def run(prog, chk):
     _cli(prog, chk, R)
 
 
-def _declarator_siblings(prog, chk):
+def _declarator_siblings(prog, chk, rule='R17.7'):
     """`@tracked qubit a, b;` — the parser builds one declaration node per declarator; every attribute it derives from the
     written declaration (annotations and the flags derived from them, finality, type, position) must be given to each of them"""
-    chk.rule('R17.7', 'every declarator of a multi-declaration receives the attributes (tracked flag included) of the declaration')
+    chk.rule(rule, 'every declarator of a multi-declaration receives the attributes (tracked flag included) of the declaration')
     n_ = 0
     for f in prog.functions:
         if not f.body or not f.file.endswith('parser.cpp') or f.kind == 'lambda':
@@ -231,9 +231,30 @@ def _declarator_siblings(prog, chk):
         for other in made[1:]:
             n_ += 1
             missing = sorted(written.get(first['id'], set()) - written.get(other['id'], set()) - {'initializer'})
-            chk.ob('R17.7', f, other.get('ln', f.ln), not missing,
+            chk.ob(rule, f, other.get('ln', f.ln), not missing,
                    'the additional declarator node `%s` receives every attribute the first one (`%s`) receives; missing: %s — a `@tracked qubit a, b;` then tracks only `a`' %
                    (other['name'], first['name'], missing), key='declarators:%s:%s' % (f.short, other['name']))
+            # … and what it receives is the finished value: an attribute copied from the first node (`extra->isTracked = var->isTracked`) is
+            # not written on the first node afterwards (the copy would hand on the value from before — `false`)
+            g = prog.cfg(f)
+
+            def root_of(e):
+                e = SX.strip(e)
+                while SX.is_node(e) and e.get('k') == 'opcall' and e.get('op') in ('->', '*') and e.get('args'):
+                    e = SX.strip(e['args'][0])
+                return e
+            for cn, l, r, op in g.writes():
+                l0 = SX.strip(l)
+                if not (SX.is_node(l0) and l0.get('k') == 'member' and SX.is_node(root_of(l0.get('base'))) and root_of(l0['base']).get('id') == other['id']):
+                    continue
+                src = [x for x in SX.walk(r) if x.get('k') == 'member' and SX.is_node(root_of(x.get('base'))) and root_of(x['base']).get('id') == first['id']] if SX.is_node(r) else []
+                for sm in src:
+                    later = g.reachable([cn])
+                    late = [wn for wn, l2, r2, op2 in g.writes() if wn.id in later and SX.is_node(SX.strip(l2)) and SX.strip(l2).get('k') == 'member'
+                            and SX.strip(l2).get('name') == sm.get('name') and SX.is_node(root_of(SX.strip(l2).get('base'))) and root_of(SX.strip(l2)['base']).get('id') == first['id']]
+                    chk.ob(rule, f, cn.ln or f.ln, not late,
+                           '`%s` copies %s from the first declarator, which is final at that point (written again at line %s: the copy hands on the value from before)' %
+                           (SX.show(cn.e)[:50], sm.get('name'), late[0].ln if late else '-'), key='declarators:%s:%s:copy-%s' % (f.short, other['name'], sm.get('name')))
     chk.count('additional declarator nodes', n_, 1)
 
 
